@@ -35,6 +35,8 @@ SITES = {
     "ems-required-but-resumed-session-negotiated-without-ems":
         "internal/flight/flight12/flight0handler.go handleHelloResume / flight3handler.go handleResumption "
         "(Session{ID, Secret} carries no extended-master-secret flag)",
+    "dtls13-client-alert-sealed-without-negotiated-connection-id":
+        "internal/flight/flight13/flight3handler.go abortFlight3 (ResetConnectionIDs before the alert is written) / conn.go notify",
     "completes-although-ems-required-and-not-in-this-handshakes-hellos":
         "internal/flight/flight12/flight3handler.go flight3Parse (client: RequireExtendedMasterSecret checked on every "
         "ServerHello, before handleResumption) / flight0handler.go flight0Parse (server: ErrServerRequiredButNoClientEMS)",
@@ -71,6 +73,10 @@ def case_monitors(c):
         fs = c11lib.failure_shape(c)
         if fs:
             pat = c11lib.defect_pattern(c)
+            if pat == "dtls13-client-alert-sealed-without-negotiated-connection-id":
+                fs = ("DTLS 1.3 with a %d-byte server connection ID negotiated: the client refuses the server's protected flight "
+                      "with alert %s, but the alert is sealed without the connection ID (abortFlight3 reset it) and never "
+                      "reaches the server - %s" % (c["s"]["cid"], c11lib.ALERTS.get(c["client"]["err_alert"], c["client"]["err_alert"]), fs))
             out.append((pat if pat != "other" else "neither-completes-nor-alerts-on-both-sides",
                         "%s%s" % (fs, (" [empty intersection: %s]" % ",".join(dims)) if dims else "")))
     return out
